@@ -147,4 +147,7 @@ def run(ctx):
     # enumerate_threads/push and suspend_threads/retain only (same rule instance as C04/thread-list-mutators)
     from rules import c04 as _c04m
     _c04m.rule_thread_list_mutators(ctx, R="C15/thread-list-mutators")
+    # shared infrastructure this property leans on (rules/families.py): each member is the same rule instance as in its home property
+    from rules import families as _fam
+    _fam.thread_list(ctx, "C15")
 
